@@ -204,6 +204,27 @@ func cflowOp(c *Ctx, op string) {
 	c.Emit(op, ans, true)
 }
 
+// failingCloseIcpt wraps client conns so that CloseRequest closes the inner conn and then
+// reports an error of its own.
+type failingCloseIcpt struct{}
+
+func (failingCloseIcpt) WrapUnary(next connect.UnaryFunc) connect.UnaryFunc { return next }
+func (failingCloseIcpt) WrapStreamingHandler(next connect.StreamingHandlerFunc) connect.StreamingHandlerFunc {
+	return next
+}
+func (failingCloseIcpt) WrapStreamingClient(next connect.StreamingClientFunc) connect.StreamingClientFunc {
+	return func(ctx context.Context, spec connect.Spec) connect.StreamingClientConn {
+		return failingCloseConn{next(ctx, spec)}
+	}
+}
+
+type failingCloseConn struct{ connect.StreamingClientConn }
+
+func (f failingCloseConn) CloseRequest() error {
+	_ = f.StreamingClientConn.CloseRequest()
+	return connect.NewError(connect.CodeAborted, errors.New("audit log unavailable"))
+}
+
 // pickyCodec refuses to marshal messages that start with 0xBD.
 type pickyCodec struct{ rawCodec }
 
@@ -821,6 +842,47 @@ func streamCancel(c *Ctx) {
 						case <-time.After(2500 * time.Millisecond):
 							_ = st.CloseRequest()
 							return "CloseResponse still blocked 2.5 s after the context ended", false
+						}
+					}})
+				}
+			}
+			// K23 (F35): a bidi call against an HTTP/1.1 server; Send, then the context ends while
+			// the request side is open: Receive must return with the context's code. (The transport
+			// waits for its write loop, which waits for the request pipe; nothing but the library
+			// can close that.)
+			if !h2 {
+				for _, ending := range []string{"cancel", "deadline"} {
+					ending := ending
+					scs = append(scs, scenario{"cancel-h1-bidi", "Send, then the context ends (" + ending + "), then Receive, on a bidi call against an HTTP/1.1 server, " + proto, func() (string, bool) {
+						h := connect.NewBidiStreamHandler("/s/m", func(ctx context.Context, s *connect.BidiStream[[]byte, []byte]) error { return nil }, connect.WithCodec(rawCodec{"raw"}))
+						srv := startServer(h, false)
+						defer srv.Close()
+						cl := connect.NewClient[[]byte, []byte](srv.Client(), srv.URL+"/s/m", protoOpts(proto)...)
+						ctx, cancel := context.WithCancel(context.Background())
+						if ending == "deadline" {
+							ctx, cancel = context.WithTimeout(context.Background(), 150*time.Millisecond)
+						}
+						defer cancel()
+						st := cl.CallBidiStream(ctx)
+						_ = st.Send(&[]byte{1})
+						if ending == "cancel" {
+							cancel()
+						} else {
+							<-ctx.Done()
+						}
+						done := make(chan error, 1)
+						go func() { _, err := st.Receive(); done <- err }()
+						want := map[string]string{"cancel": "canceled", "deadline": "deadline_exceeded"}[ending]
+						select {
+						case err := <-done:
+							_ = st.CloseRequest()
+							_ = st.CloseResponse()
+							return "receive=" + codeName(err), codeName(err) == want
+						case <-time.After(2500 * time.Millisecond):
+							_ = st.CloseRequest()
+							<-done
+							_ = st.CloseResponse()
+							return "Receive still blocked 2.5 s after the context ended", false
 						}
 					}})
 				}
@@ -1820,6 +1882,54 @@ func streamLife(c *Ctx) {
 				return got, ok
 			}})
 		}
+		// L9 (F36): a client built with a URL that url.ParseRequestURI lets through and
+		// http.NewRequest refuses: every call fails with a coded error - no panic, and no
+		// operation waits for a response that nothing will ever produce.
+		scs = append(scs, scenario{"life-bad-url", "calls on a client whose URL http.NewRequest refuses (http://host/s/m?x#%zz), " + proto, func() (string, bool) {
+			got := safely(func() string {
+				cl := connect.NewClient[[]byte, []byte](&inprocClient{h: http.NotFoundHandler()}, "http://host/s/m?x#%zz", protoOpts(proto)...)
+				_, uerr := cl.CallUnary(context.Background(), connect.NewRequest(&[]byte{1}))
+				st := cl.CallBidiStream(context.Background())
+				done := make(chan error, 1)
+				go func() {
+					defer func() {
+						if r := recover(); r != nil {
+							done <- fmt.Errorf("PANIC %v", r)
+						}
+					}()
+					_, err := st.Receive()
+					done <- err
+				}()
+				var rerr error
+				select {
+				case rerr = <-done:
+				case <-time.After(2 * time.Second):
+					return "Receive on a bidi stream of that client still blocked after 2 s (unary: " + codeName(uerr) + ")"
+				}
+				cerr := st.CloseResponse()
+				return fmt.Sprintf("unary=%s receive=%s close=%s", codeName(uerr), codeName(rerr), codeName(cerr))
+			})
+			return got, strings.HasPrefix(got, "unary=unavailable receive=unavailable")
+		}})
+		// L10 (F37): CloseRequest fails (an interceptor's conn reports an error after closing the
+		// inner one) inside CallServerStream: the caller gets no stream to close, so the library
+		// has to release the response itself.
+		scs = append(scs, scenario{"life-body-not-closed", "CallServerStream whose CloseRequest fails in an interceptor, " + proto, func() (string, bool) {
+			h := connect.NewServerStreamHandler("/s/m", func(ctx context.Context, r *connect.Request[[]byte], s *connect.ServerStream[[]byte]) error {
+				return s.Send(&[]byte{1})
+			}, connect.WithCodec(rawCodec{"raw"}))
+			srv := startServer(h, true)
+			defer srv.Close()
+			cc := &countingClient{inner: srv.Client()}
+			cl := connect.NewClient[[]byte, []byte](cc, srv.URL+"/s/m", append(protoOpts(proto), connect.WithInterceptors(failingCloseIcpt{}))...)
+			_, err := cl.CallServerStream(context.Background(), connect.NewRequest(&[]byte{1}))
+			deadline := time.Now().Add(2 * time.Second)
+			for atomic.LoadInt32(&cc.closes) < atomic.LoadInt32(&cc.bodies) && time.Now().Before(deadline) {
+				time.Sleep(20 * time.Millisecond)
+			}
+			bodies, closes := atomic.LoadInt32(&cc.bodies), atomic.LoadInt32(&cc.closes)
+			return fmt.Sprintf("call=%s responses opened=%d closed=%d", codeName(err), bodies, closes), err != nil && closes >= bodies
+		}})
 		// L1b: small Sends after the handler finished eventually fail with an EOF-wrapping error
 		scs = append(scs, scenario{"life-send-after-finish", "small Sends after the handler finished, " + proto, func() (string, bool) {
 			h := connect.NewBidiStreamHandler("/s/m", func(ctx context.Context, s *connect.BidiStream[[]byte, []byte]) error {
